@@ -33,6 +33,11 @@ Step ==
        [] e.kind = "quiesce" ->
             \* end of one history: every block handed out has been released; the next history starts from an empty heap
             (IF heap.live = {} THEN Acc ELSE Rej(e, "leak")) /\ heap' = [live |-> {}, freed |-> {}]
+       [] e.kind = "rebind" ->
+            \* allocate + deallocate through rebind<double>::other: the block is aligned to the ORIGINAL allocator's alignment and the
+            \* rebound allocators compare equal to it (equal alignments)
+            (IF e.r[1] = 2 \/ (e.r[1] = 1 /\ AlignedTo(Sub(e.r, 2, 8), e.align) /\ BLe(Sub(e.r, 18, 8), Sub(e.r, 10, 8)) /\ e.r[28] = 1 /\ e.r[29] = 1)
+             THEN Acc ELSE Rej(e, "rebind")) /\ UNCHANGED heap
        [] e.kind = "maxsize" ->
             \* max_size() = floor(SIZE_MAX / sizeof(T)): largest n with n*sizeof(T) representable
             (IF Representable(Sub(e.r, 1, 8), e.sz) /\ ~Representable(BAdd(Sub(e.r, 1, 8), One), e.sz) THEN Acc ELSE Rej(e, "max_size")) /\ UNCHANGED heap
